@@ -80,6 +80,7 @@ func enumMenu() []enumOp {
 			enumOp{r, r, o2, graphops.Intersect, 0})
 		m = append(m,
 			enumOp{r, -1, r, graphops.RelateNode, 0},
+			enumOp{r, -1, r, graphops.RelateNode, 3}, // the node related at itself
 			enumOp{r, -1, r, graphops.Remove, 2},
 			enumOp{r, -1, r, graphops.Remove, 1},
 			enumOp{r, -1, o1, graphops.Descendants, 2},
@@ -111,6 +112,9 @@ func (e enumOp) build(pool []*sbom.NodeList, step int) *graphops.Op {
 	case graphops.RelateNode:
 		op.At, op.T = id, sbom.Edge_dependsOn
 		nid := fmt.Sprintf("n%d", step)
+		if e.sel == 3 {
+			nid = id
+		}
 		op.Node = &sbom.Node{Id: nid, Name: "n-" + nid}
 	case graphops.Remove:
 		op.IDs = []string{id}
